@@ -61,8 +61,7 @@ impl Settings {
         TropicalSamplingSettings {
             matrix_stability_test: self.stab.map(f64::from_bits),
             print_debug_info: self.debug,
-            return_metadata: self.meta,
-        }
+            return_metadata: self.meta, ..Default::default() }
     }
 }
 
